@@ -43,6 +43,18 @@ def prepare_dirs(workdir):
         os.makedirs(os.path.join(workdir, sub), exist_ok=True)
         with open(os.path.join(workdir, sub, 'imp2.lark'), 'w') as f:
             f.write(content)
+    os.makedirs(os.path.join(workdir, 'sub'), exist_ok=True)
+    with open(os.path.join(workdir, 'sub', 'imp.lark'), 'w') as f:
+        f.write(IMPORTS['i2'])
+    for k, (g, sub) in LOCATED.items():
+        with open(os.path.join(workdir, sub, 'main.lark'), 'w') as f:
+            f.write(GRAMMARS[g])
+
+
+def construct(lark, workdir, g, o, **kw):
+    if g in LOCATED:
+        return lark.Lark.open(os.path.join(workdir, LOCATED[g][1], 'main.lark'), parser='lalr', **kw, **resolve_opts(o, workdir))
+    return lark.Lark(GRAMMARS[g], parser='lalr', source_path=os.path.join(workdir, 'main.lark'), **kw, **resolve_opts(o, workdir))
 
 
 GRAMMARS = {
@@ -54,6 +66,11 @@ GRAMMARS = {
     'g5': 'start: greet NAME+\ngreet: "hi a" | "hello"\n%import .imp (NAME)\n%import common.WS\n%ignore WS\n',
     'g6': 'start: greet NAME+\ngreet: "hi  a" | "hello"\n%import .imp (NAME)\n%import common.WS\n%ignore WS\n',
 }
+# the same TEXT at two locations, opened with Lark.open (no explicit source_path): '.imp' resolves next to the file, so g7
+# (in sub/, whose imp.lark always holds i2) and g8 (in the work directory, imp.lark = the step's content) are different grammars
+# although their text is equal (hunted defect 31: the cache key left the location out)
+LOCATED = {'g7': ('g1', 'sub'), 'g8': ('g1', '')}
+GRAMMARS.update({k: GRAMMARS[v[0]] for k, v in LOCATED.items()})
 OPTIONS = {'o1': {}, 'o2': {'keep_all_tokens': True}, 'o3': {'maybe_placeholders': False, 'propagate_positions': True},
            'o4': {'maybe_placeholders': False}, 'o5': {'maybe_placeholders': True}, 'pa': {'import_paths': ['pa']}, 'pb': {'import_paths': ['pb']}}
 IMPORTS = {'i1': 'NAME: /[a-z]+/\n', 'i2': 'NAME: /[A-Z]+/\n', 'i3': 'NAME: /[a-z][a-z ]*[a-z]/\n', 'i4': 'NAME: /[a-z][a-z  ]*[a-z]/\n'}
@@ -124,7 +141,7 @@ def build_and_probe(workdir, g, o, v):
         gpath = os.path.join(workdir, 'main.lark')
         raised = ''
         try:
-            p = lark.Lark(GRAMMARS[g], parser='lalr', cache=os.path.join(workdir, 'cache.bin'), source_path=gpath, **resolve_opts(o, workdir))
+            p = construct(lark, workdir, g, o, cache=os.path.join(workdir, 'cache.bin'))
         except Exception as e:
             return {'raised': type(e).__name__ + ': ' + str(e)[:160], 'outs': [], 'recompiled': bool(calls)}
         outs = []
@@ -141,7 +158,7 @@ def expected_outs(workdir, g, o):
         import logging
         logging.disable(logging.CRITICAL)
         import lark
-        p = lark.Lark(GRAMMARS[g], parser='lalr', source_path=os.path.join(workdir, 'main.lark'), **resolve_opts(o, workdir))
+        p = construct(lark, workdir, g, o)
         from .observe import parse_outcome
         outs = []
         for text in INPUTS:
@@ -276,7 +293,10 @@ def jobs(tier, rng, expected):
     for a, b in ((step(g='g5'), step(g='g6')), (step(g='g6'), step(g='g5')), (step(i='i3'), step(i='i4')), (step(i='i4'), step(i='i3')),
                  (step(g='g5', i='i3'), step(g='g6', i='i4'))):
         out.append({'steps': [a, b, a, b], 'expected': expected})
-    for g_, o_ in (('g1', 'o1'), ('g2', 'o3'), ('g3', 'pa'), ('g4', 'o4')):
+    # equal text at two locations with different sibling imports, against one cache path
+    for a, b in ((step(g='g8'), step(g='g7')), (step(g='g7'), step(g='g8')), (step(g='g8', o='o2'), step(g='g7', o='o2')), (step(g='g7', i='i2'), step(g='g8', i='i2'))):
+        out.append({'steps': [a, b, a, b], 'expected': expected})
+    for g_, o_ in (('g1', 'o1'), ('g2', 'o3'), ('g3', 'pa'), ('g4', 'o4'), ('g7', 'o1'), ('g8', 'o3')):
         out.append({'steps': [step(g=g_, o=o_), step(g=g_, o=o_), step(g=g_, o=o_)], 'expected': expected})
     for _ in range(C.scale(60 if tier == 'quick' else 600)):
         steps = []
